@@ -11,6 +11,14 @@ more than it should could block in recv(MSG_WAITALL); `Link.guarded()` arms a SI
 turns such a hang into EOF (shutdown of the peer's write side).  The watchdog never decides a
 verdict by itself: the call's result is compared with the oracle as usual.
 
+Transport "sim" puts the same client on the in-memory stream socket of the simulator
+(vlib.simnet.FakeSocket) instead: there the bytes the peer writes can be made to *arrive in
+pieces* (`Link.write(data, cuts)`): at the start of every frame read the bytes up to the next cut
+point have arrived, the rest arrives only while the client is blocked in recv (MSG_WAITALL pulls
+what it needs, a recv without it returns what has arrived).  The client module's `select` name is
+replaced by a shim that serves FakeSockets and hands real sockets to the real select.  A client
+that would block for ever on that transport raises simnet.Stall instead of hanging.
+
 The only private attributes of the client that are touched are `_sock` and `_connected`.
 """
 from __future__ import annotations
@@ -33,8 +41,9 @@ from pyrtma.message import get_msg_cls
 from pyrtma.message_base import MessageMeta
 from pyrtma.validators import ByteArray, Double, Int32, IntArray
 
-from vlib import proto
+from vlib import proto, simnet
 from vlib.common import HarnessError
+from vlib.simnet import FakeSocket, Stall
 
 ALL = proto.ALL_MESSAGE_TYPES
 MT_ACK = proto.MT_ACKNOWLEDGE
@@ -159,6 +168,56 @@ def _install_watchdog():
 
 
 # ------------------------------------------------------------------------------------------------
+# select shim for the in-memory transport (installed as pyrtma.client.select)
+
+
+class _ClientSelect:
+    error = select.error
+
+    def select(self, rlist, wlist, xlist, timeout=None):
+        rlist, wlist, xlist = list(rlist), list(wlist), list(xlist)
+        if not any(isinstance(s, FakeSocket) for s in rlist + wlist + xlist):
+            if timeout is None:
+                return select.select(rlist, wlist, xlist)
+            return select.select(rlist, wlist, xlist, timeout)
+        for s in rlist + wlist:
+            if s.closed:
+                raise ValueError("file descriptor cannot be a negative integer (-1)")
+        if wlist and not rlist:
+            return [], wlist, []
+
+        def ready():
+            return [s for s in rlist if s.rx or s.rx_fin or s.rx_rst]
+
+        r = ready()
+        if not r:
+            for s in rlist:
+                link = getattr(s, "_engd_link", None)
+                if link is not None and s.inflight:
+                    link._arrive()  # the next piece arrives while the client waits
+            r = ready()
+        if r:
+            return r, [], []
+        if timeout is None or timeout < 0:
+            raise Stall("select() would block for ever: nothing queued, nothing on the way, peer open")
+        return [], [], []  # virtual wait: the timeout elapses at once
+
+
+_SHIM = {"installed": False}
+
+
+def _install_select_shim():
+    if _SHIM["installed"]:
+        return
+    import pyrtma.client as pc
+
+    if not hasattr(pc, "select") or not hasattr(pc.select, "select"):
+        raise HarnessError("seam pyrtma.client.select no longer exists")
+    pc.select = _ClientSelect()
+    _SHIM["installed"] = True
+
+
+# ------------------------------------------------------------------------------------------------
 # the link
 
 _TCP = {"listener": None}
@@ -194,14 +253,24 @@ class Link:
             a, b = socket.socketpair()
         elif transport == "tcp":
             a, b = _tcp_pair()
+        elif transport == "sim":
+            _install_select_shim()
+            net = simnet.Net()
+            a, b = FakeSocket(net, "engD-client"), FakeSocket(net, "engD-peer")
+            a.peer, b.peer = b, a
+            a._engd_link = self
         else:
             raise HarnessError(f"unknown transport {transport}")
-        for s in (a, b):
-            for opt in (socket.SO_SNDBUF, socket.SO_RCVBUF):
-                try:
-                    s.setsockopt(socket.SOL_SOCKET, opt, self.BUF)
-                except OSError:
-                    pass
+        self.sim = transport == "sim"
+        self.written = 0     # sim: bytes handed to the stream so far
+        self.cut_abs = []    # sim: absolute stream offsets at which the arrival pauses
+        if not self.sim:
+            for s in (a, b):
+                for opt in (socket.SO_SNDBUF, socket.SO_RCVBUF):
+                    try:
+                        s.setsockopt(socket.SOL_SOCKET, opt, self.BUF)
+                    except OSError:
+                        pass
         self.a, self.peer = a, b
         b.setblocking(False)
         self.peer_state = "open"  # open | shut | closed
@@ -216,9 +285,30 @@ class Link:
         self.client = client
 
     # -- peer side -------------------------------------------------------------------------
-    def write(self, data: bytes):
+    def _arrive(self):
+        """sim: let the bytes up to the next cut point (or everything) arrive."""
+        a = self.a
+        arrived = self.written - len(a.inflight)
+        nxt = min((c for c in self.cut_abs if c > arrived), default=None)
+        k = len(a.inflight) if nxt is None else min(len(a.inflight), nxt - arrived)
+        a.rx += a.inflight[:k]
+        del a.inflight[:k]
+
+    def write(self, data: bytes, cuts=()):
+        """Queue `data` for the client.  cuts (sim only): offsets inside `data` where the arrival
+        pauses until the client blocks in a read or starts the next frame read with nothing left."""
         if self.peer_state != "open":
             raise HarnessError("script writes after the peer closed")
+        if self.sim:
+            paused = bool(self.a.inflight)  # the arrival is held at an earlier cut: queue behind it
+            self.cut_abs += [self.written + int(c) for c in cuts]
+            self.written += len(data)
+            self.a.inflight += data
+            if not paused:
+                self._arrive()
+            return
+        if cuts:
+            raise HarnessError("segmented arrival needs the sim transport")
         view = memoryview(data)
         while len(view):
             try:
@@ -231,6 +321,10 @@ class Link:
         """Whole frames the client has sent since the last call."""
         if self.peer_state == "closed":
             return []
+        if self.sim:
+            self.ctrl_buf += self.peer.rx
+            del self.peer.rx[:]
+            return proto.parse_stream(self.ctrl_buf, self.timecode)
         while True:
             try:
                 d = self.peer.recv(65536)
@@ -246,7 +340,10 @@ class Link:
     def shut(self):
         """Half close: the client sees EOF after the queued bytes, and can still send."""
         if self.peer_state == "open":
-            self.peer.shutdown(socket.SHUT_WR)
+            if self.sim:
+                self.a.rx_fin = True  # FIN behind whatever is queued or still on the way
+            else:
+                self.peer.shutdown(socket.SHUT_WR)
             self.peer_state = "shut"
 
     def fin(self):
@@ -257,6 +354,11 @@ class Link:
 
     def rst(self):
         """Abortive close.  unix: close with unread client data pending; tcp: SO_LINGER(1, 0)."""
+        if self.sim:
+            self.read_ctrl()
+            self.peer.abort()
+            self.peer_state = "closed"
+            return True
         if self.transport == "tcp":
             self.peer.setsockopt(socket.SOL_SOCKET, socket.SO_LINGER, struct.pack("ii", 1, 0))
             self.peer.close()
